@@ -142,6 +142,44 @@ def register(R, tier="quick"):
                                   modifies=["self.matchers", "self.current"])},
                note="skips inside the current segment with the target rebased to local numbers, then moves on")
 
+
+    # ------------------------------------------------------------------ skip_to_quality (C12)
+    def all_quality(I, env):
+        fam = env["self"].fields["matchers"]
+        i = z3.Int("aq_i")
+        return z3.ForAll([i], fam.SBQ(i))
+
+    def passed_low(I, env):
+        """every entry a child has been moved past since entry scores at most minquality in that child; positions only
+        move forward"""
+        o, o0 = env["self"], I.old_env["self"]
+        fam, fam0 = o.fields["matchers"], o0.fields["matchers"]
+        j, s = z3.Int("pl_j"), z3.Int("pl_s")
+        q = z3.ToReal(env["minquality"]) if z3.is_int(env["minquality"]) else env["minquality"]
+        return z3.And(o.fields["current"] >= o0.fields["current"],
+                      z3.ForAll([j], fam.cur_of(j) >= fam0.cur_of(j)),
+                      z3.ForAll([j, s], z3.Implies(z3.And(0 <= j, j < fam.n, fam.SS(j, s), s >= fam0.cur_of(j), s < fam.cur_of(j)),
+                                                   fam.SC(j, s) <= q)))
+
+    def mk_q(I, **kw):
+        env = mk(I)
+        env["minquality"] = z3.Real("minquality")
+        return env
+
+    R.contract(K + "block_quality", props=["C12"], setup=mk, cover_hint=hint, requires=["minv(self)", ACTIVE, all_quality],
+               ensures=[lambda I, env: env["result"] == env["self"].fields["matchers"].BQ(
+                   env["self"].fields["current"], env["self"].fields["matchers"].cur_of(env["self"].fields["current"]))],
+               returns="real", note="the block quality of the current segment's matcher")
+    R.contract(K + "skip_to_quality", props=["C12", "C05"], setup=mk_q, cover_hint=hint,
+               requires=["minv(self)", ACTIVE, all_quality, "minquality >= 0"],
+               ensures=["minv(self)", passed_low],
+               modifies=["self.matchers", "self.current"], returns="int",
+               loops={0: LoopSpec(inv=["minv(self)", passed_low, "skipped >= 0"], modifies=["self.matchers", "self.current"])},
+               canaries=[Canary("stays-on-exhausted-child", "self._next_matcher()", "pass"),
+                         Canary("threshold-doubled", "sk = mr.skip_to_quality(minquality)", "sk = mr.skip_to_quality(minquality * 2 + 1)")],
+               note="skip_to_quality(q) over several segments: each segment's matcher only passes entries scoring at most q, "
+                    "and an exhausted segment hands over to the next non-empty one")
+
     # ------------------------------------------------------------------ construction and reset
     def fresh_children(I, env):
         """no child has been advanced: every child stands on its first entry (or is empty)"""
